@@ -1300,8 +1300,10 @@ func funToString(v interface{}) (string, error) {
 
 func funToInt(v interface{}) (*decimal.Big, error) {
 	n := convToNumber(v)
-	iv, _ := n.Int64()
-	return newDecimalBig().SetFloat64(float64(iv)), nil
+	if !n.IsFinite() {
+		return newDecimalBig().SetUint64(0), nil
+	}
+	return roundToInt(n, decimal.ToZero), nil
 }
 
 func funToFloat(v interface{}) (*decimal.Big, error) {
